@@ -396,4 +396,8 @@ def main(run_fn, pid):
         log("INCONCLUSIVE %s: %s" % (pid, e))
         shutil.rmtree(ctx.work, ignore_errors=True)
         sys.exit(2)
+    except Exception:       # noqa - a fault of the checking machinery itself is never a verdict on the code
+        import traceback
+        log("INCONCLUSIVE %s: internal error of the check\n%s" % (pid, traceback.format_exc()[-3000:]))
+        sys.exit(2)
     sys.exit(rc)
